@@ -163,6 +163,11 @@ class VC:
         try:
             if callable(expr) and not hasattr(expr, "free_symbols"):
                 expr = timed(expr, budget_s)
+            point = self.ghost.get("sp_subregime_point")
+            if point and sampler is not None:
+                # the path runs in a part of the regime (a branch of the code split it): probe there
+                base_sampler = sampler
+                sampler = lambda g: {**base_sampler(g), **point}
             status, info = timed(lambda: is_zero(expr, sampler), budget_s)
         except CasTimeout as ex:
             status, info = "undecided", {"why": str(ex)}
